@@ -7,7 +7,7 @@
   The replay region (i_rep, got_wrap) is modelled because `writer` and `grow`
   read it; the replay/rewind/copy/move entry points are not in the op set.
 -/
-import PdshVerif.Gen.Consts
+import PdshVerif.Gen.Cbuf
 
 namespace PdshVerif.Cbuf
 
